@@ -368,7 +368,9 @@ ResourceManager::balance_unchoked(unsigned int weight, unsigned int max_unchoked
     // change += cm->cycle(weight != 0 ? (quota * itr->priority()) / weight : 0);
     change += cm->cycle(weight != 0 ? quota / weight : 0);
 
-    quota -= cm->size_unchoked();
+    // A group may hold more than its share due to min slots, do not let
+    // the remaining quota wrap around.
+    quota -= std::min(quota, cm->size_unchoked());
     // weight -= itr->priority();
     weight--;
   }
